@@ -75,16 +75,49 @@ def isAsciiDigits (s : String) : Bool := !s.isEmpty && s.toList.all (fun c => '0
 /-- value of an ASCII digit string -/
 def digitsVal (cs : List Char) : Nat := cs.foldl (fun n c => 10 * n + (c.toNat - '0'.toNat)) 0
 
-/-- `int(self.xml.find('messageID').text)` (mostypes.py l.168-172).
-    Modelled on ASCII digit strings; a missing tag is `AttributeError`, an empty one `TypeError`,
-    anything else `ValueError` (strings with signs, blanks or underscores are not generated). -/
+/-- the 29 code points for which `str.isspace()` is true (checked exhaustively against the
+    interpreter by the C17 check) -/
+def pyIsSpace (c : Char) : Bool :=
+  let n := c.toNat
+  (0x09 ≤ n && n ≤ 0x0D) || (0x1C ≤ n && n ≤ 0x20) || n == 0x85 || n == 0xA0 || n == 0x1680 ||
+  (0x2000 ≤ n && n ≤ 0x200A) || n == 0x2028 || n == 0x2029 || n == 0x202F || n == 0x205F || n == 0x3000
+
+/-- `str.strip()` on a list of characters -/
+def pyStripL (cs : List Char) : List Char :=
+  ((cs.dropWhile pyIsSpace).reverse.dropWhile pyIsSpace).reverse
+
+/-- drop the single underscores Python allows between digits (`1_000`); `none` when an underscore is
+    leading, trailing or doubled -/
+def dropDigitSeparators : List Char → Option (List Char)
+  | [] => some []
+  | [c] => if c == '_' then none else some [c]
+  | c :: d :: rest =>
+    if c == '_' then none
+    else if d == '_' then
+      match rest with
+      | [] => none
+      | e :: _ => if e == '_' then none else (dropDigitSeparators rest).map (c :: ·)
+    else (dropDigitSeparators (d :: rest)).map (c :: ·)
+
+/-- `int(s)` for the non-negative decimal literals Python accepts: surrounding whitespace (the
+    `str.isspace` table), an optional `+`, ASCII digits with single underscores between them.
+    (Not modelled, never generated: a `-` sign, non-ASCII digits.) -/
+def pyInt (s : String) : Option Nat :=
+  let cs0 := pyStripL s.toList
+  let cs := match cs0 with | '+' :: r => r | r => r
+  match dropDigitSeparators cs with
+  | none => none
+  | some ds => if !ds.isEmpty && ds.all (fun c => '0' ≤ c && c ≤ '9') then some (digitsVal ds) else none
+
+/-- `int(self.xml.find('messageID').text)` (mostypes.py l.168-172): a missing tag is
+    `AttributeError`, an empty one `TypeError`, a text `int()` rejects `ValueError` -/
 def messageId (m : Xml) : Except PyExc Nat :=
   match m.find "messageID" with
   | none => .error .AttributeError
   | some e =>
     match e.text with
     | none => .error .TypeError
-    | some s => if isAsciiDigits s then .ok (digitsVal s.toList) else .error .ValueError
+    | some s => match pyInt s with | some n => .ok n | none => .error .ValueError
 
 /-- the exception, if any, raised by evaluating `self.message_id` inside an error/warning text -/
 def msgIdExc (m : Xml) : Option PyExc :=
